@@ -130,6 +130,10 @@ def opExec (args : List String) : String :=
 
 /-- `rundocs <doc>|<doc>|…`: result mapping per document and process exit status -/
 def opRunDocs (args : List String) : String :=
+  -- an optional `case=<tag>` names the harness scenario that carries the operation; it is not part of the model's input
+  let args := match args with
+    | [ds, tag] => if tag.startsWith "case=" then [ds] else args
+    | _ => args
   match args with
   | [ds] =>
     match (ds.splitOn "|").mapM parseDoc with
